@@ -288,6 +288,15 @@ def _model(case, rs, n_cond):
             D = D + w * Dk
         r = np.array(vs)
         return ModelWeighted(name, r), theta, D, name, [r]
+    if mk == 'weighted-negative':
+        # a NEGATIVE weight that keeps the mixture embeddable: all squared distances minus 0.4 (resp. 1.5 of weight 2) times the
+        # squared distances along the first coordinate = squared distances of the points with that coordinate shrunk
+        pts = _points(rs, n_cond, kind)
+        v_all, D_all = _typed(case, _sqdist_matrix(pts))
+        v_one, D_one = _typed(case, _sqdist_matrix(pts[:, :1]))
+        theta = np.array([1.0, -0.4]) if case['seed'] % 2 else np.array([2.0, -1.5])
+        r = np.array([v_all, v_one])
+        return ModelWeighted(name, r), theta, theta[0] * D_all + theta[1] * D_one, name, [r]
     if mk == 'weighted-none':                 # theta=None: ModelWeighted predicts the plain sum of its RDMs
         vs, Ds = zip(*[_typed(case, _sqdist_matrix(_points(rs, n_cond, kind))) for _ in range(2)])
         r = np.array(vs)
@@ -839,13 +848,18 @@ def tier_c(run, thorough):
 
     def check_rdm(case):
         fn = 'make_signal' if case['n_channel'] == case['n_cond'] else 'make_dataset'
-        if case['model'] == 'weighted':
+        if case['model'] in ('weighted', 'weighted-negative'):
             # vector-valued theta: calc_rdm of the simulated dataset is a finding of its own (domain C18/exact-rdm-theta-vector
             # below, C18_findings.md); here the numerical claim is checked on the raw measurements only
             bd.check(orc_exact_rdm, dict(case, via='loops'), _cls(case), function=fn)
         else:
             bd.check(orc_exact_rdm, case, _cls(case), function=fn)
 
+    # a ModelWeighted with a negative weight (still Euclidean-embeddable)
+    for seed in range(4 if thorough else 2):
+        for n_cond in (3, 5):
+            check_rdm(dict(seed=700 + seed, n_cond=n_cond, n_channel=n_cond + seed % 2, kind='generic', model='weighted-negative',
+                           n_part=2, n_sim=1, signal=(1.0, 2.5)[seed % 2], same=bool(seed % 2), design=('shuffled', 'descending')[seed % 2]))
     k = 0
     for seed in range(n_seed):
         for n_cond in range(2, nc_hi + 1):
